@@ -132,6 +132,62 @@ Proof.
   split; [vm_compute; reflexivity|]. split; reflexivity.
 Qed.
 
+(* windows on other scales: confidence reported as a percentage (mean 90, std 2) with
+   latencies in milliseconds, and confidence as a log-probability (-5/16) with a
+   negative (clock-skewed) latency.  Training accepts both; the hypotheses of
+   c17_trained_baseline_contains_window / c17_trained_window_stays_no_threat hold; the
+   learned confidence interval is (86, 94) resp. (-5/16 - 2 * 0.01, -5/16 + 2 * 0.01), not
+   anything inside [0, 1]; and the window is still NONE at the fourth inspection after a
+   manual flag, a stored threat with the window's own hashes and an inspection of
+   another fingerprint *)
+Definition window_percent : peptide := mkPep (37#1) (1#4) (1500#1) (25#1) (90#1) (2#1) 0 3 2 None.
+Definition window_logprob : peptide := mkPep (37#1) (1#4) (-1#2) 0 (-5#16) 0 0 3 2 (Some 1%Q).
+
+Example ex_training_other_scales :
+  (forall x y, (x <= y)%Q -> (id_rnd x <= id_rnd y)%Q) /\
+  representable id_rnd window_percent /\ representable id_rnd window_logprob /\
+  (exists s1 t, sys_step id_rnd false g0 s_plain (OTrain (Some window_percent)) = (s1, OutTrain Positive) /\
+                s_tcell s1 = Some t /\
+                (Qred (cf_lo (t_prof t)), Qred (cf_hi (t_prof t))) = (86#1, 94#1)%Q /\
+                (Qred (rt_lo (t_prof t)), Qred (rt_hi (t_prof t))) = (1450#1, 1550#1)%Q) /\
+  (exists s1 t, sys_step id_rnd false g0 s_plain (OTrain (Some window_logprob)) = (s1, OutTrain Positive) /\
+                s_tcell s1 = Some t /\
+                qlt (cf_hi (t_prof t)) 0 = true /\ qlt (rt_hi (t_prof t)) 0 = true /\
+                within (cf_lo (t_prof t)) (cf_hi (t_prof t)) (p_cf window_logprob) = true) /\
+  (forall w, In w [window_percent; window_logprob] ->
+     map (fun x => match snd x with
+                   | OutResp r _ => level_code (r_level r) + 10 * Z.of_nat (length (r_viol r))
+                   | OutTrain res => 100 + selres_code res
+                   | _ => -1 end)
+         (run id_rnd false g0 s_plain
+              [OTrain (Some w); OInspect (Some w); OFlag true; OInspect (Some w);
+               OStore (mkSig 0 3 2 LCrit AShutdown 0 0 []); OInspect (Some slow); OInspect (Some w);
+               OInspect (Some w)])
+     = [100; 0; -1; 0; -1; 53; 0; 0]).
+Proof.
+  split; [intros x y H; exact H|].
+  split; [unfold representable, id_rnd; repeat split; try reflexivity; intros a E; inversion E|].
+  split; [unfold representable, id_rnd; repeat split; try reflexivity|].
+  split; [eexists; eexists; split; [vm_compute; reflexivity|]; split; [reflexivity|]; split; vm_compute; reflexivity|].
+  split; [eexists; eexists; split; [vm_compute; reflexivity|]; split; [reflexivity|]; repeat split; vm_compute; reflexivity|].
+  intros w [<-|[<-|[]]]; vm_compute; reflexivity.
+Qed.
+
+(* why the learned interval must not be cut to an assumed range: with the confidence
+   interval of the percent-scale window clamped to [0, 1] — (86, 1) — the baseline
+   rejects the very window it was learned from, and the third inspection isolates
+   the agent for its own baseline (REPEATED_ANOMALY) *)
+Example ex_clamped_bounds_reject_own_window :
+  let pr := train_profile id_rnd (2#1) window_percent in
+  let clamped := mkProf (ol_lo pr) (ol_hi pr) (rt_lo pr) (rt_hi pr) (qmax (cf_lo pr) 0) (if qle (cf_hi pr) 1 then cf_hi pr else 1%Q)
+                        (err_max pr) (vocab pr) (structs pr) (canary_min pr) in
+  check pr window_percent = [] /\ check clamped window_percent = [3] /\
+  map (fun x => match snd x with OutResp r _ => (level_code (r_level r), action_code (r_action r)) | _ => (-1, -1) end)
+      (run id_rnd false g_norules (mkSys (Some (fresh_tcell clamped 3 5)) [] (Some (mkRec 0 0 false [])) 0 0)
+           [OInspect (Some window_percent); OInspect (Some window_percent); OInspect (Some window_percent)])
+  = [(1, 1); (1, 1); (2, 2)].
+Proof. vm_compute. auto. Qed.
+
 (* ---------------------------------------------------------------------- *)
 (* the pre-repair behaviour ([legacy = true]) violates the property         *)
 
